@@ -127,6 +127,36 @@ def sample_models(ctx, name, inst, n, tag):
                 return
 
 
+def validator_selfcheck(ctx, rng, n):
+    """The stand-alone rule validators against the exhaustive enumeration on small boards: every enumerated solution must pass, and
+    a one-entry perturbation that is not an enumerated solution must be refuted.  A disagreement is a harness defect (inconclusive)."""
+    for name, spec in rules.PUZZLES.items():
+        if getattr(spec, "check_model", None) is None:
+            continue
+        for _ in range(n):
+            inst = spec.gen(rng, False)
+            truth = spec.truth(inst)
+            if truth is None:
+                continue
+            sols = [s for v in truth.values() for s in v]
+            keyset = [tuple(sorted(s.items())) for s in sols]
+            allsol = set(keyset)
+            for s in sols[:6]:
+                ctx.count("c11.validator_selfcheck")
+                if not spec.check_model(inst, s):
+                    ctx.inconc("harness: a rule validator refutes an enumerated solution", {"puzzle": name, "instance": inst, "solution": s})
+                    continue
+                if not s:
+                    continue
+                k = rng.choice(sorted(s))
+                t = dict(s)
+                t[k] = (not t[k]) if isinstance(t[k], bool) else (t[k] + 1)
+                if tuple(sorted(t.items())) not in allsol and spec.check_model(inst, t):
+                    ctx.inconc("harness: a rule validator accepts a grid the enumeration does not contain", {"puzzle": name, "instance": inst, "grid": t})
+                else:
+                    ctx.count("c11.validator_selfcheck_perturbation_refuted")
+
+
 def judge_planted(ctx, name, inst, sol):
     """Boards too large to enumerate: the instance was built around a rule-obeying grid (partial, sound oracle)."""
     spec = rules.PUZZLES[name]
@@ -178,6 +208,8 @@ def run(ctx):
                 judge(ctx, name, inst)
             if t == 0 and ctx.shard == 0 and name in ("slitherlink", "heyawake"):
                 ctx.sample({"puzzle": name, "instance": inst})
+    if ctx.shard % 4 == 0:
+        validator_selfcheck(ctx, rng, 3 if not thorough else 20)
     # on the large boards the 'decided cells' clause is probed through the back end's own yes/no answers (M-SOLVE probe): a decided
     # cell must be forced in the posted program, an undecided one must admit two values
     mst = msolve.state()
